@@ -6,7 +6,8 @@
                                                 => Ok len= tc= id= cnt=q,a,n,r opt= b2=
    srv <id> <b2> <qd> <nq> <labels> <qtype> <-|one:size:ver|dup:size|bad> <cfg|-> <none|err:rc|ok:rb2:rb3:n_an:an_len:n_ar:ar_len:(-|size/dlen)>
                                                 => Ok None | Ok len= tc= id= cnt= opt= b2= b3= ottl=   (one datagram through the whole DgramServer)
-   accept <c|f|e<kind>,...>                     => s/- per attempt (c: a connection, f: accepted but the stream future fails, e<kind>: poll_accept error)
+   recfg <id> <b2> <labels> <client|-> <cfg1|-> <cfg2|-> <rb2> <n_an> <an_len> <size:dlen|->   => Ok <obs> | <obs>   (the same request before and after DgramServer::reconfigure from cfg1 to cfg2)
+   accept <c|f|e<kind>,...>                     => s/- per attempt (c: a connection, f: accepted but the stream future fails, p: ... never completes, e<kind>: poll_accept error)
    idle <timeout_ms> <wait_ms>                  => open | closed   (a fresh connection left alone for wait_ms, then probed)
    limit <max> <k>                              => s/d per connection (k connections opened in turn and kept: served or dropped)
    ck <id> <b2> <labels> <qtype> <client|-> <cfg|-> <mal|deny>   => as srv: the cookies middleware's own FORMERR (malformed COOKIE) / REFUSED+TC (denied address, no cookie)
@@ -52,8 +53,15 @@ let handle = function
       show_outcome (fun (((((l, tc), i), (((q, a), n), r)), ho), b2) ->
         Printf.sprintf "len=%s tc=%s id=%s cnt=%s,%s,%s,%s opt=%s b2=%s" (show_n l) (b01 tc) (show_n i)
           (show_n q) (show_n a) (show_n n) (show_n r) (b01 ho) (show_n b2)) r
+  | ["recfg"; id; b2; labels; client; cfg1; cfg2; rb2; n_an; an_len; opt] ->
+      let o = if opt = "-" then None else (match String.split_on_char ':' opt with [a; b] -> Some (n_of a, n_of b) | _ -> failwith "opt") in
+      let sh (((((l, tc), i), (((q, a), n), r)), ho), b2) =
+        Printf.sprintf "len=%s tc=%s id=%s cnt=%s,%s,%s,%s opt=%s b2=%s" (show_n l) (b01 tc) (show_n i) (show_n q) (show_n a) (show_n n) (show_n r) (b01 ho) (show_n b2) in
+      show_outcome (fun (x, y) -> sh x ^ " ; " ^ sh y)
+        (c16_recfg (n_of id) (n_of b2) (List.map n_of (split_on '.' labels)) (opt_n client) (opt_n cfg1) (opt_n cfg2) (n_of rb2) (n_of n_an) (n_of an_len) o)
   | ["accept"; evs] ->
-      let ev e = if e = "c" then None else if e = "f" then Some None else Some (Some (n_of (String.sub e 1 (String.length e - 1)))) in
+      let ev e = if e = "c" then n_of_int 0 else if e = "f" then n_of_int 1 else if e = "p" then n_of_int 2
+                 else n_of_int (100 + int_of_string (String.sub e 1 (String.length e - 1))) in
       String.concat "" (List.map (fun b -> if b then "s" else "-") (c16_accept (List.map ev (split_on ',' evs))))
   | ["idle"; t; w] -> if c16_idle (n_of t) (n_of w) then "open" else "closed"
   | ["limit"; mx; k] -> String.concat "" (List.map (fun b -> if b then "s" else "d") (c16_limit (n_of mx) (n_of k)))
